@@ -69,20 +69,32 @@ def execute(w, ins):
         w.cur_info['dyn_on'] = bool(g0.api.configure().get('reordering'))
     except Exception:
         pass
+    dyn_before = []
+    for g_ in w.mgrs:
+        try:
+            dyn_before.append(bool(g_.api.configure().get('reordering')))
+        except Exception:
+            dyn_before.append(False)
     r = fn(w, ins)
     w.last_call = None
     w.touch()   # temporaries of the executor are gone now: observe afresh
     st, cn, dn = step_tags(w, ins, owner)
     w.check_invariants(st, cn, dn)
     w.check_quiet(cn)
-    if w.cur_info.get('dyn_on') and ins['op'] not in ('configure', 'load', 'copy_vars'):
-        try:
-            still = bool(g0.api.configure().get('reordering'))
-        except Exception:
-            still = True
-        if not still:
-            w.fail('reordering_disabled', f'dynamic reordering was enabled before {ins["op"]} and is disabled after it',
-                   ['C09'] + (['C17'] if w.cur_info.get('raised') else []))
+    if ins['op'] not in ('configure', 'copy_vars', 'fork', 'manager_roundtrip') \
+            and not (ins['op'] == 'load' and ins.get('target') == 2):
+        # whichever manager had reordering enabled still has (a replaced
+        # manager is a new object and is not compared)
+        for g_, was in zip(w.mgrs, dyn_before):
+            if not was:
+                continue
+            try:
+                still = bool(g_.api.configure().get('reordering'))
+            except Exception:
+                still = True
+            if not still:
+                w.fail('reordering_disabled', f'dynamic reordering of M{g_.idx} was enabled before {ins["op"]} and is disabled after it',
+                       ['C09'] + (['C17'] if w.cur_info.get('raised') else []))
     w.prev_raised = bool(w.cur_info.get('raised') and w.cur_info.get('expected_raise'))
     if w.prev_raised:
         w.stats['raised_steps'] += 1
